@@ -159,6 +159,18 @@ func genC17(seed int64, tier string) []caseOut {
 			other := M{"type": ty, "suffixData": b.request["suffixData"], "delta": b.request["delta"]}
 			addV("state-other-type-"+ty, ns+":"+b.suffix+":"+b64(jcs(other)), false)
 		}
+		// member names in another letter case, optional members given as null: decodable by a lenient
+		// decoder, but not the canonical JSON of the create request
+		canon := string(b.bytes)
+		for _, rp := range [][2]string{{`"delta":`, `"Delta":`}, {`"delta":`, `"deltA":`}, {`"patches":`, `"Patches":`}, {`"updateCommitment":`, `"updatecommitment":`},
+			{`"suffixData":`, `"sUffixData":`}, {`"deltaHash":`, `"DeltaHash":`}, {`"type":"create"`, `"tYpe":"create"`}, {`"recoveryCommitment":`, `"recoveryCommitmenT":`},
+			{`"type":"create"`, `"type":"create","zz":null`}, {`{"delta":`, `{"anchorOrigin":null,"delta":`}, {`"type":"create"`, `"type":null`},
+			{`"suffixData":{"deltaHash"`, `"suffixData":{"anchorOrigin":null,"deltaHash"`}} {
+			alt := strings.Replace(canon, rp[0], rp[1], 1)
+			if alt != canon {
+				addV("state-member-respelled:"+rp[1], ns+":"+b.suffix+":"+b64([]byte(alt)), false)
+			}
+		}
 		// namespaces related by prefix, short form, foreign suffix
 		addV("namespace-longer", "did:ionx:"+b.suffix+":"+state, false)
 		addV("namespace-shorter", "did:io:"+b.suffix+":"+state, false)
@@ -268,6 +280,8 @@ func genC17(seed int64, tier string) []caseOut {
 				svc.Properties = map[string]interface{}{"note": "kept"}
 			}
 			doc.Service = append(doc.Service, svc)
+			// also-known-as values, some in a spelling a URI normaliser would change: they come back as supplied
+			doc.AlsoKnownAs = [][]string{{"https://aka.example/me"}, {"HTTPS://Example.com/alice", "https://example.com/alice#"}, {"URN:uuid:6E8BC430-9C3A-11D9-9669-0800200C9A66", "https://example.com/josé"}}[i%3]
 			upd, rec := genKey(r, "Ed25519"), genKey(r, "Ed25519")
 			ids := map[string]bool{}
 			readOK, idOK := true, true
@@ -288,6 +302,9 @@ func genC17(seed int64, tier string) []caseOut {
 					} else {
 						idOK = rd.DIDDocument.ID == first && len(rd.DIDDocument.VerificationMethod) == nkeys &&
 							len(rd.DocumentMetadata.EquivalentID) > 0 && strings.HasPrefix(first, rd.DocumentMetadata.EquivalentID[0]+":")
+						if fmt.Sprint(rd.DIDDocument.AlsoKnownAs) != fmt.Sprint(doc.AlsoKnownAs) {
+							idOK = false
+						}
 						// the services supplied come back with all their members
 						if len(rd.DIDDocument.Service) != 1 {
 							idOK = false
